@@ -243,7 +243,13 @@ def run_case(ck, rng, stats, samples):
         mres = common.run_lines(model, ['label %s %s %s %s' % (','.join(hexs(e) for e in ex) or '-', ','.join(hexs(t) for t in exp_templates_model), act_macros_m, bef)])[0][0]
         mexp = common.unhexs(mres[1:]) if mres.startswith('S') else None
         rl = [ref_interp(t, pats, act_macros_r) for t in exp_templates_ref]
-        rexp = None if any(x is None for x in rl) else b' '.join(([existing] if existing else []) + [x for x in rl if x != b''])      # a label that interpolates to nothing adds nothing
+        # the labels are appended one after the other, each preceded by a blank once the value is non-empty (so a label that interpolates
+        # to nothing adds nothing at the front, and only the blank elsewhere)
+        rexp = None
+        if not any(x is None for x in rl):
+            rexp = existing or b''
+            for x in rl:
+                rexp += (b' ' if rexp else b'') + x
         got = None
         for b in sb.snapshot(src).values():
             m = re.search(rb'^X-Label: (.*)$', b, re.M)
@@ -288,12 +294,59 @@ def judge(ck, stats, what, got, mexp, rexp, rc, desc, rep):
         pass
 
 
+def sequence_case(ck, rng, stats):
+    """several messages in one run: an interpolation that fails part-way for an earlier message (after producing some text) leaves no
+    trace in what is interpolated for the later ones"""
+    sb = mdrun.Sandbox()
+    src = sb.maildir('src'); dst = sb.maildir('dst')
+    helper, hout = confgen.install_helper(sb)
+    bad = rng.choice([b'pre-\\2', b'lit \\1.1 x', b'a\\0b\\3', b'${path}-\\7'])
+    kind = rng.choice(['add-header', 'label', 'exec', 'move'])
+    good_t = rng.choice([b'<\\1>', b'\\0|\\1', b'x\\1y'])
+    if kind == 'add-header':
+        act1, act2 = b'add-header "X-Out" "%s"' % bad, b'add-header "X-Out" "%s"' % good_t
+    elif kind == 'label':
+        act1, act2 = b'label "%s"' % bad, b'label "%s"' % good_t
+    elif kind == 'exec':
+        act1, act2 = b'exec { "%s" "%s" }' % (helper.encode(), bad), b'exec { "%s" "%s" }' % (helper.encode(), good_t)
+    else:
+        act1, act2 = b'move "%s/%s"' % (sb.root.encode(), bad), b'add-header "X-Out" "%s"' % good_t
+    conf = sb.write_conf(b'maildir "%s" {\n\tmatch header "X-K" /^first(x)?/ %s\n\tmatch header "X-K" /^(second)/ %s\n}\n' % (src.encode(), act1, act2))
+    nfirst = rng.choice([1, 2])
+    for i in range(nfirst):
+        sb.add(src, 'new', b'To: a\nX-K: first\n\nF%d\n' % i)            # new/ is walked first
+    sb.add(src, 'cur', b'To: a\nX-K: second\n\nS\n')
+    rc, out, err = sb.run([], conf=conf, env={'VERIF_HELPER_OUT': hout, 'MALLOC_PERTURB_': '90'})
+    stats['runs'] += 1; stats['sequence'] = stats.get('sequence', 0) + 1
+    want = good_t.replace(b'\\0', b'second').replace(b'\\1', b'second')
+    snap = sb.snapshot(src)
+    second = [b for b in snap.values() if b'X-K: second' in b]
+    firsts = [b for b in snap.values() if b'X-K: first' in b]
+    got = None
+    if kind == 'exec':
+        argvs = [open(os.path.join(hout, c, 'argv'), 'rb').read().split(b'\0')[:-1] for c in sorted(os.listdir(hout))]
+        got = argvs[0][0] if len(argvs) == 1 and len(argvs[0]) == 1 else repr(argvs).encode()        # (this helper records its arguments only)
+    elif second:
+        m = re.search(rb'^(?:X-Out|X-Label): (.*)$', second[0], re.M)
+        got = m.group(1) if m else None
+    rep = {'config': open(conf, 'rb').read().decode(errors='replace'), 'exit': rc, 'stderr': err[-300:].decode(errors='replace')}
+    if got != want or len(firsts) != nfirst or rc == 0:
+        stats['viol'] += 1
+        ck.violation('after %d message(s) whose template %r fails, the next message\'s %s %r produced %r instead of %r (exit %d, %d first message(s) left)'
+                     % (nfirst, bad, kind, good_t, got, want, rc, len(firsts)), rep)
+    else:
+        stats['nontrivial'] += 1
+    sb.cleanup()
+
+
 def run(ck):
     stats = dict(runs=0, evals=0, fired=0, nontrivial=0, viol=0, dis=0)
     samples = []
     n = 250 if ck.tier == 'quick' else 6000
     for i in range(n):
         run_case(ck, ck.rng, stats, samples)
+        if i % 10 == 0:
+            sequence_case(ck, ck.rng, stats)
         if len(ck.violations) > 6:
             break
     ck.coverage.update({
@@ -301,7 +354,7 @@ def run(ck):
         'distinct_nontrivial': stats['nontrivial'],
         'rule': 'rules with 1-4 header pattern conditions, interleaved in a third of the positions with conditions that are not patterns (date modified / created, new, all, ! old) (5 pattern shapes with capture groups, flags i/l/u) over header values from an alphabet containing '
                 '\\\\ digits . $ { } and ready-made \\\\1, \\\\0.1, ${path}, ${mac}; 1-3 templates mixing literals, \\\\N, \\\\M.N, \\\\N\\\\., ${path}, ${mac} '
-                '(-D override in a third of the cases); action exec / command / ! command / label / add-header; non-trivial = the rule fires and the reference '
+                '(-D override in a third of the cases); action exec / command / ! command / label / add-header; every tenth case a run over two or three messages in which the template of the earlier ones fails part-way; non-trivial = the rule fires and the reference '
                 'interpolation succeeds; counted per run',
         'samples': samples,
         'traces_validated_against_impl': stats['evals'],
